@@ -12,9 +12,11 @@
 (*   "semWait" --SemAcquire--> "loading" --LoaderReturn--> "loaded"        *)
 (*   "loaded" --HandleNew--> "ret"   handleNewItem under c.m: error /      *)
 (*                                   larger than the cache / makeRoom+push *)
-(* TimerFire(i): the TTL timer of item i runs removeItem under c.m.        *)
+(* TimerExpire(i) / TimerRun(i): the TTL timer of item i expires; its      *)
+(* function then takes c.m and runs removeItem unless i.index = -1.        *)
 (* Clear: only when no reader is in flight (the session clears the cache   *)
-(* after all torrents are closed).                                         *)
+(* after all torrents are closed); it stops the timers but a timer whose   *)
+(* function is already waiting for c.m cannot be stopped.                  *)
 (*                                                                         *)
 (* The access heap is modelled as the sequence of item ids in LRU order    *)
 (* (container/heap ordered by lastAccessed); i.index = -1 <=> ~inheap.     *)
@@ -24,7 +26,7 @@
 (*                                                                         *)
 (* FIXED = FALSE: the code as it is.  FIXED = TRUE: updateAccessTime       *)
 (* returns early for an item that is not in the heap (index = -1, set at   *)
-(* creation).                                                              *)
+(* creation) and Clear marks the dropped items with index = -1.            *)
 (***************************************************************************)
 EXTENDS LimitsCache
 
@@ -41,6 +43,8 @@ NoRes == [k |-> 0, sz |-> 0, ver |-> 0, err |-> FALSE, own |-> FALSE]
 Entry(i) == [k |-> items[i].k, sz |-> items[i].sz, ver |-> items[i].ver]
 SeqSet(s) == {s[j] : j \in 1 .. Len(s)}
 Without(s, S) == SelectSeq(s, LAMBDA x : x \notin S)
+\* timer.Stop(): too late for a timer whose function has already been started
+StopT(t) == IF t = "armed" THEN "stopped" ELSE t
 RECURSIVE SumItems(_)
 SumItems(S) == IF S = {} THEN 0 ELSE LET x == CHOOSE y \in S : TRUE IN items[x].sz + SumItems(S \ {x})
 
@@ -82,9 +86,10 @@ Touch(r) ==
     /\ heap' = IF items[i].inheap THEN Append(Without(heap, {i}), i) ELSE heap
     /\ IF FIXED /\ ~items[i].inheap
        THEN /\ items' = [items EXCEPT ![i].lock = 0] /\ UNCHANGED crashed
-       ELSE IF items[i].timer = "nil"
-       THEN /\ crashed' = TRUE /\ UNCHANGED items                       \* nil.Reset(ttl)
-       ELSE /\ items' = [items EXCEPT ![i].lock = 0, ![i].timer = "armed"] /\ UNCHANGED crashed
+       ELSE IF items[i].timer = "nil" \/ (items[i].inheap /\ i \notin SeqSet(heap))
+       THEN /\ crashed' = TRUE /\ UNCHANGED items                       \* nil.Reset(ttl) / heap.Fix(stale index)
+       ELSE /\ items' = [items EXCEPT ![i].lock = 0, ![i].timer = IF @ = "fired" THEN "fired" ELSE "armed"]
+            /\ UNCHANGED crashed
     /\ pc' = [pc EXCEPT ![r] = "ret"]
     /\ res' = [res EXCEPT ![r] = [k |-> items[i].k, sz |-> items[i].sz, ver |-> items[i].ver, err |-> FALSE, own |-> FALSE]]
     /\ UNCHANGED <<cvars, map, size, nxt, nver, sem, rit, rk, calls>>
@@ -126,22 +131,33 @@ HandleNew(r) ==
                /\ map' = [k \in KeySet |-> IF \E j \in ev : items[j].k = k THEN 0 ELSE map[k]]
                /\ items' = [j \in 1 .. NI |->
                               IF j = i THEN [it EXCEPT !.lock = 0, !.inheap = TRUE, !.timer = "armed"]
-                              ELSE IF j \in ev THEN [items[j] EXCEPT !.inheap = FALSE, !.timer = "stopped"]
+                              ELSE IF j \in ev THEN [items[j] EXCEPT !.inheap = FALSE, !.timer = StopT(@)]
                               ELSE items[j]]
                /\ AInsert(Entry(i), {Entry(j) : j \in ev})
     /\ UNCHANGED <<nxt, nver, sem, rit, rk, calls, crashed>>
 
-TimerFire(i) ==
+\* time.AfterFunc: the timer expires (its function starts in a new goroutine) ...
+TimerExpire(i) ==
     /\ TTL /\ items[i].timer = "armed"
-    /\ IF items[i].inheap
+    /\ items' = [items EXCEPT ![i].timer = "fired"]
+    /\ UNCHANGED <<cvars, map, heap, size, nxt, nver, sem, pc, rit, rk, res, calls, crashed>>
+
+\* ... and the function gets c.m:  if i.index != -1 { c.removeItem(i) }
+TimerRun(i) ==
+    /\ items[i].timer = "fired"
+    /\ IF items[i].inheap /\ i \in SeqSet(heap)
        THEN /\ heap' = Without(heap, {i})
             /\ size' = size - items[i].sz
             /\ map' = [map EXCEPT ![items[i].k] = 0]
             /\ items' = [items EXCEPT ![i].inheap = FALSE, ![i].timer = "stopped"]
             /\ AEvict({Entry(i)})
+            /\ UNCHANGED crashed
+       ELSE IF items[i].inheap
+       THEN /\ crashed' = TRUE                      \* heap.Remove with a stale index
+            /\ UNCHANGED <<cvars, heap, size, map, items>>
        ELSE /\ items' = [items EXCEPT ![i].timer = "stopped"]
-            /\ UNCHANGED <<cvars, heap, size, map>>
-    /\ UNCHANGED <<nxt, nver, sem, pc, rit, rk, res, calls, crashed>>
+            /\ UNCHANGED <<cvars, heap, size, map, crashed>>
+    /\ UNCHANGED <<nxt, nver, sem, pc, rit, rk, res, calls>>
 
 Ret(r) ==
     /\ pc[r] = "ret"
@@ -152,7 +168,9 @@ Clear ==
     /\ CLEAR /\ \A r \in Readers : pc[r] = "idle"
     /\ heap # <<>>
     /\ map' = [k \in KeySet |-> 0] /\ heap' = <<>> /\ size' = 0
-    /\ items' = [j \in 1 .. NI |-> IF j \in SeqSet(heap) THEN [items[j] EXCEPT !.inheap = FALSE, !.timer = "stopped"] ELSE items[j]]
+    /\ items' = [j \in 1 .. NI |-> IF j \in SeqSet(heap)
+                                   THEN [items[j] EXCEPT !.inheap = IF FIXED THEN FALSE ELSE @, !.timer = StopT(@)]
+                                   ELSE items[j]]
     /\ AEvict(cached)
     /\ UNCHANGED <<nxt, nver, sem, pc, rit, rk, res, calls, crashed>>
 
@@ -161,7 +179,7 @@ QNext ==
     /\ \/ \E r \in Readers, k \in KeySet : GetItem(r, k)
        \/ \E r \in Readers : LockItem(r) \/ Touch(r) \/ SemAcquire(r) \/ HandleNew(r) \/ Ret(r)
        \/ \E r \in Readers, sz \in Sizes, e \in ERRS : LoaderReturn(r, sz, e)
-       \/ \E i \in 1 .. NI : TimerFire(i)
+       \/ \E i \in 1 .. NI : TimerExpire(i) \/ TimerRun(i)
        \/ Clear
 
 QSpec == QInit /\ [][QNext]_vars
@@ -176,8 +194,8 @@ PSizeLimit == 0 <= size /\ size <= MAX
 PBalance ==
     /\ size = SumItems(SeqSet(heap))
     /\ Cardinality(SeqSet(heap)) = Len(heap)
-    /\ \A i \in 1 .. NI : items[i].inheap <=> i \in SeqSet(heap)
-    /\ \A i \in SeqSet(heap) : map[items[i].k] = i /\ items[i].timer = "armed" /\ items[i].loaded /\ ~items[i].err
+    /\ \A i \in 1 .. NI : (i \in SeqSet(heap) => items[i].inheap) /\ (FIXED /\ items[i].inheap => i \in SeqSet(heap))
+    /\ \A i \in SeqSet(heap) : map[items[i].k] = i /\ items[i].timer \in {"armed", "fired"} /\ items[i].loaded /\ ~items[i].err
     /\ cached = {Entry(i) : i \in SeqSet(heap)}
 \* at rest the map holds exactly the heap entries (no leaked placeholders)
 PQuiescent ==
